@@ -232,10 +232,12 @@ pub fn run_side_effect_analysis(cfg: &Cfg) -> ReportCollection {
     let taint_analysis = run_taint_analysis(cfg);
     let constraint_analysis = run_constraint_analysis(cfg);
 
-    // 2. Compute the set of variables read.
+    // 2. Compute the sets of variables read and written.
     let mut variables_read = HashSet::new();
+    let mut variables_written = HashSet::new();
     for basic_block in cfg.iter() {
         variables_read.extend(basic_block.variables_read().map(|var| var.name().clone()));
+        variables_written.extend(basic_block.variables_written().map(|var| var.name().clone()));
     }
 
     // 3. Compute the set of sinks as follows:
@@ -299,7 +301,7 @@ pub fn run_side_effect_analysis(cfg: &Cfg) -> ReportCollection {
         .collect::<HashSet<_>>();
 
     // Add input and output signals to this set.
-    sinks.extend(exported_signals);
+    sinks.extend(exported_signals.iter().cloned());
     // println!("constraint sinks: {sinks:?}");
 
     // Add variables occurring in declarations, return values, asserts, and
@@ -334,6 +336,10 @@ pub fn run_side_effect_analysis(cfg: &Cfg) -> ReportCollection {
             continue;
         }
         if !variables_read.contains(source.name()) {
+            // Input and output signals are read outside of the template.
+            if exported_signals.contains(source.name()) {
+                continue;
+            }
             // If the variable is unread, the corresponding value is unused.
             if cfg.parameters().contains(source.name()) {
                 reports.push(build_unused_param(source, cfg.name()))
@@ -365,8 +371,8 @@ pub fn run_side_effect_analysis(cfg: &Cfg) -> ReportCollection {
         if reported_vars.contains(&source.to_string()) {
             continue;
         }
-        if !variables_read.contains(source) {
-            // If the variable is unread, it must be unconstrained.
+        if !variables_read.contains(source) && !variables_written.contains(source) {
+            // If the signal is neither read nor assigned, it is unused.
             reports.push(build_unused_signal(declaration));
         } else if matches!(cfg.definition_type(), DefinitionType::Template)
             && !taint_analysis.taints_any(source, &constraint_analysis.constrained_variables())
